@@ -32,7 +32,7 @@ var witnesses = []witness{
 	{"C02", "pkg/ja4/types.go", `func (x numberOfExtensions) String() string   { return fmt.Sprintf("%02d", min(x, 99)) }`, `func (x numberOfExtensions) String() string   { return fmt.Sprintf("%02d", x) }`, "C02.R5", "extension count not capped"},
 	// C03
 	{"C03", "pkg/metadata/http2.go", "int(p.Weight)+1", "int(p.Weight)", "C03.R4", "weight not +1"},
-	{"C03", "pkg/metadata/http2.go", "uint(l) < maxPriorityFrames", "uint(l) <= maxPriorityFrames", "C03.R4", "min computed with <="},
+	{"C03", "pkg/metadata/http2.go", "uint(l) < maxPriorityFrames", "uint(l) > maxPriorityFrames", "C03.R4", "max instead of min (`<=` instead of `<` is the same min and is not flagged)"},
 	{"C03", "pkg/http2/server.go", "if md.HTTP2Frames.WindowUpdateIncrement == 0 {", "if true {", "C03.R2", "window update captures the last frame"},
 	{"C03", "pkg/http2/server.go", "StreamDep: f.PriorityParam.StreamDep,", "StreamDep: f.StreamID,", "C03.R3", "priority literal fields swapped"},
 	{"C03", "pkg/fingerprint/fingerprint.go", `data.ConnectionState.NegotiatedProtocol == "h2"`, `data.ConnectionState.NegotiatedProtocol != ""`, "C03.R5", "h2 guard loosened"},
